@@ -224,6 +224,15 @@ class Effects(object):
                 return 'DimArray'
             if bt == 'ndarray':
                 return 'ndarray'
+            # an element of a list built by a comprehension / display has the type of what the list was built from
+            src = t[1]
+            while src[0] == 'sub' and src[2][0] == 'slice':
+                src = src[1]
+            if bt == 'list' and src[0] == 'comp':
+                return self.type_of(src[2], fi)
+            if bt == 'list' and src[0] == 'list' and src[1]:
+                ts = set(self.type_of(x, fi) for x in src[1])
+                return ts.pop() if len(ts) == 1 else None
             return None
         if tag in ('list', 'comp'):
             return 'list'
@@ -934,6 +943,25 @@ class Effects(object):
             return
         call = e.a
         f = call[1]
+        # an option dictionary that is given `overwrite_input` (kw.setdefault('overwrite_input', True) / kw['overwrite_input'] = ... / kw.update(overwrite_input=...))
+        # and later handed on as **kw: the function that receives it may reorder its first argument in place (np.median, np.percentile, np.partition ...)
+        owd = ctx.setdefault('_overwrite_dicts', {})
+        if f[0] == 'attr' and f[2] in ('setdefault', '__setitem__') and len(call[2]) == 2 and call[2][0] == const('overwrite_input') and call[2][1] != T.CONST_FALSE:
+            owd[f[1]] = e
+        if f[0] == 'attr' and f[2] == 'update' and T.kw(call, 'overwrite_input') not in (None, T.CONST_FALSE):
+            owd[f[1]] = e
+        def _has_ow(t):
+            for x in T.subterms(t):
+                if x[0] == 'mut' and x[2] == 'setdefault' and len(x[3]) == 2 and x[3][0] == const('overwrite_input') and x[3][1] != T.CONST_FALSE:
+                    return True
+                if x[0] == 'setitem' and x[2] == const('overwrite_input') and x[3] != T.CONST_FALSE:
+                    return True
+            return False
+        for k_, v_ in call[3]:
+            if k_ == '**' and call[2] and (_has_ow(v_) or any(v_ == d or (v_[0] in ('mut', 'setitem') and v_[1] == d) for d in owd)) and not (f[0] == 'attr' and f[2] in ('setdefault', 'update')):
+                target = self.absval(call[2][0][1] if call[2][0][0] == 'star' else call[2][0], ctx)
+                self.record(s, fi, target[0], '%s: %s %s(<first argument>, **%s) after overwrite_input was put into that dictionary: NumPy may reorder the argument in place'
+                            % (fi.qualname, where, T.show(f)[:40], T.show(v_)[:30]))
         # out= keyword and numpy writers
         out = T.kw(call, 'out')
         if out is not None and out != T.CONST_NONE:
